@@ -1,8 +1,328 @@
 import PrimitivModel.Model.Graph
+import PrimitivModel.Lemmas.GraphForward
+/-
+Property C05 — nodes are evaluated on demand, at most once, and their values
+never change.  Every `theorem` below is one proof obligation of `./check C05`.
+
+The statements are over the executable model `Model/Graph.lean` (the
+definitions the driver `drv_graph` runs against the real library), for *all*
+histories
+
+    Op τ ::= addOperator kind args sizes | forward a | backward a
+           | setParamValue p v | setFail k
+
+applied to the empty graph (`run`, `step`, `State.empty` in
+Lemmas/GraphForward.lean; an operation that fails keeps the state it reached,
+as the model and the C++ do).  The only hypothesis on a history is
+`Op.Admissible`: an added operator obeys `KindOK` — a Parameter operator has no
+arguments and one return value, a random source has one return value, and an
+operator's `forward` fills all of its return values.  These are the arity check
+of `Graph::add_operator` (which the model's `addOperator` assumes done) and the
+contract of `Operator::forward`; all operators of the driver satisfy them.
+
+`WF` (Lemmas/GraphForward.lean) is the invariant of reachable states:
+arguments refer to existing nodes of earlier operators, the return values of
+an operator are evaluated together, Parameter operators never memoise, an
+evaluated operator's arguments are evaluated, the log lists exactly the
+evaluated operators (each once), the random stream position counts the
+evaluated random operators and the i-th of them holds sample i.  `Ext s s' l` says that `s'` is `s` after exactly
+the operators `l` have been evaluated; the main induction `forwardRec_spec`
+shows that every recursive forward call is such an extension.
+-/
 namespace Primitiv.C05
 open Primitiv.Graph
 
-theorem forwardArgsWith_nil {τ} (ev : State τ → Addr → State τ × Except Err τ) (s : State τ) :
-    forwardArgsWith ev s [] = (s, .ok []) := rfl
+variable {τ : Type}
+
+/-- the states a program can reach -/
+def Reachable (T : TOps τ) (s : State τ) : Prop :=
+  ∃ (params : Params τ) (sample : Nat → Nat → τ) (h : List (Op τ)),
+    (∀ op ∈ h, op.Admissible) ∧ s = run T (State.empty params sample) h
+
+/-! ### witnesses used by the examples (τ = Nat) -/
+def T0 : TOps Nat := ⟨fun _ => 0, fun _ => 1, (· + ·)⟩
+/-- `y = Σ xs`, `gx_i += gy` -/
+def sumSem : OpSem Nat :=
+  { nret := 1, fwd := fun xs => some [xs.sum], bwd := fun xs _ gys => xs.map fun _ => gys.head? }
+def P0 : Params Nat := ⟨fun p => p + 10, fun _ => 0⟩
+def smp : Nat → Nat → Nat := fun k n => 100 * k + n
+/-- parameter node 0; random node 1; `2 = 0 + 1`; `3 = 2 + 2` -/
+def h0 : List (Op Nat) :=
+  [.addOperator (.param 0) [] [1], .addOperator .rnd [] [1],
+   .addOperator (.op sumSem) [⟨0, 0⟩, ⟨1, 0⟩] [1], .addOperator (.op sumSem) [⟨2, 0⟩, ⟨2, 0⟩] [1]]
+def s0 : State Nat := run T0 (State.empty P0 smp) h0
+/-- `s0` after node 2 has been forced -/
+def s1 : State Nat := run T0 s0 [.forward ⟨2, 0⟩]
+
+/-- `s1` with one more operator `4 = 2 + 0` -/
+def s2 : State Nat := run T0 s1 [.addOperator (.op sumSem) [⟨2, 0⟩, ⟨0, 0⟩] [1]]
+
+theorem h0_admissible : ∀ op ∈ h0, op.Admissible := by
+  intro op hop
+  simp only [h0, List.mem_cons, List.not_mem_nil, or_false] at hop
+  rcases hop with rfl | rfl | rfl | rfl <;> simp [Op.Admissible, KindOK, sumSem]
+  all_goals (intro xs ys h; subst h; simp)
+
+theorem s0_reachable : Reachable T0 s0 := ⟨P0, smp, h0, h0_admissible, rfl⟩
+
+/-! ### the invariant -/
+
+
+/-- Every reachable state is well-formed. -/
+theorem reachable_wf {T : TOps τ} {s : State τ} (h : Reachable T s) : WF s := by
+  obtain ⟨params, sample, h, hadm, rfl⟩ := h
+  exact run_wf T (WF.empty params sample) h hadm
+example : Reachable T0 s0 := s0_reachable
+
+/-- Reachable states are closed under admissible operations. -/
+theorem reachable_run {T : TOps τ} {s : State τ} (hs : Reachable T s) {h : List (Op τ)}
+    (hadm : ∀ op ∈ h, op.Admissible) : Reachable T (run T s h) := by
+  obtain ⟨params, sample, h0, hadm0, rfl⟩ := hs
+  refine ⟨params, sample, h0 ++ h, ?_, (run_append T _ h0 h).symm⟩
+  intro op hop
+  rcases List.mem_append.1 hop with hop | hop
+  · exact hadm0 op hop
+  · exact hadm op hop
+example : Reachable T0 s1 := reachable_run s0_reachable (by simp [Op.Admissible])
+
+theorem s2_reachable : Reachable T0 s2 := by
+  refine reachable_run (reachable_run s0_reachable (h := [.forward ⟨2, 0⟩]) (by simp [Op.Admissible])) ?_
+  intro op hop
+  simp only [List.mem_singleton] at hop
+  subst hop
+  simp only [Op.Admissible, KindOK, sumSem]
+  intro xs ys h; cases h; simp
+
+/-! ### 1. the recursion is well-founded: `oid + 1` levels suffice, no undefined behaviour -/
+
+/-- In a reachable state the recursion of `forward` never runs out of fuel and never reaches
+any other `crash` branch: it returns a value or a `primitiv::Error` thrown by an operator. -/
+theorem fuel_suffices {T : TOps τ} {s : State τ} (hs : Reachable T s) {a : Addr}
+    (ha : s.validAddr a = true) : (forwardRec T (a.oid + 1) s a).2 ≠ .error .crash :=
+  (forwardRec_spec T (a.oid + 1) s a (reachable_wf hs) ha (Nat.lt_succ_self _)).nocrash
+example : Reachable T0 s0 ∧ s0.validAddr ⟨3, 0⟩ = true := ⟨s0_reachable, rfl⟩
+
+/-- More fuel than `oid + 1` changes nothing. -/
+theorem fuel_irrelevant {T : TOps τ} {s : State τ} (hs : Reachable T s) {a : Addr}
+    (ha : s.validAddr a = true) {fuel : Nat} (hfuel : a.oid < fuel) :
+    forwardRec T fuel s a = forward T s a := by
+  unfold forward
+  rw [if_pos ha]
+  exact forwardRec_fuel T fuel (a.oid + 1) s a (reachable_wf hs) ha hfuel (Nat.lt_succ_self _)
+example : forwardRec T0 100 s0 ⟨3, 0⟩ = forward T0 s0 ⟨3, 0⟩ :=
+  fuel_irrelevant s0_reachable rfl (by decide)
+
+/-- The same for the entry point; an invalid node is the only `crash` (`CHECK_NODE` aborts). -/
+theorem forward_crash_iff {T : TOps τ} {s : State τ} (hs : Reachable T s) (a : Addr) :
+    (forward T s a).2 = .error .crash ↔ s.validAddr a = false := by
+  constructor
+  · intro h
+    cases hv : s.validAddr a with
+    | false => rfl
+    | true => exact absurd h (forward_spec T (reachable_wf hs) hv).nocrash
+  · intro h
+    simp [forward, h]
+example : (forward T0 s0 ⟨4, 0⟩).2 = .error .crash ∧ (forward T0 s0 ⟨3, 0⟩).2 = .ok 22 := ⟨rfl, rfl⟩
+
+/-! ### 2. at most once -/
+
+/-- No operator's forward runs twice, whatever the history (failed forwards are not logged:
+an operator is evaluated at most once *successfully*). -/
+theorem evaluated_at_most_once (T : TOps τ) (params : Params τ) (sample : Nat → Nat → τ)
+    (h : List (Op τ)) (hadm : ∀ op ∈ h, op.Admissible) :
+    (run T (State.empty params sample) h).log.Nodup :=
+  (run_wf T (WF.empty params sample) h hadm).log_nodup
+example : (run T0 s0 [.forward ⟨2, 0⟩, .backward ⟨3, 0⟩, .forward ⟨3, 0⟩, .forward ⟨2, 0⟩]).log = [1, 2, 3] := rfl
+
+/-- The log lists exactly the operators that hold values. -/
+theorem log_iff_evaluated {T : TOps τ} {s : State τ} (hs : Reachable T s) (k : Nat) :
+    k ∈ s.log ↔ s.evaluated k :=
+  (reachable_wf hs).log_iff k
+example : s1.log = [1, 2] := rfl
+
+/-! ### 3. values never change -/
+
+/-- A stored value never changes or disappears: later forwards, backward passes, parameter
+updates, injected failures and added operators leave it as it is (and the graph's structure:
+`run_keeps`). -/
+theorem values_monotone {T : TOps τ} {s : State τ} (hs : Reachable T s) {a : Addr} {n : NodeInfo τ} {v : τ}
+    (hn : s.node? a = some n) (hv : n.value = some v) (h' : List (Op τ)) (hadm : ∀ op ∈ h', op.Admissible) :
+    ∃ n', (run T s h').node? a = some n' ∧ n'.value = some v :=
+  (run_keeps T (reachable_wf hs) h' hadm).node hn hv
+example : (s1.node? ⟨2, 0⟩).bind (·.value) = some 11 ∧
+    ((run T0 s1 [.setParamValue 0 7, .backward ⟨3, 0⟩, .addOperator .rnd [] [1], .forward ⟨4, 0⟩]).node? ⟨2, 0⟩).bind
+      (·.value) = some 11 := ⟨rfl, rfl⟩
+
+/-- Requesting an evaluated node again returns the stored value and changes nothing. -/
+theorem forward_memoised {T : TOps τ} {s : State τ} (hs : Reachable T s) {a : Addr} {n : NodeInfo τ} {v : τ}
+    (hn : s.node? a = some n) (hv : n.value = some v) : forward T s a = (s, .ok v) :=
+  forward_memo T (reachable_wf hs) hn hv
+example : (s1.node? ⟨2, 0⟩).bind (·.value) = some 11 := rfl
+
+/-! ### 4. a request evaluates exactly the unevaluated ancestors -/
+
+/-- The operators evaluated by `forward a` (the extension `l` of the log): each at most once,
+every one an ancestor of `a` (or `a`'s operator), not evaluated before, not a Parameter;
+and the random stream advances by the number of random operators among them.
+Holds also when the request fails. -/
+theorem forward_evaluates_only_ancestors {T : TOps τ} {s : State τ} (hs : Reachable T s) (a : Addr) :
+    ∃ l, (forward T s a).1.log = s.log ++ l ∧ l.Nodup ∧
+      (∀ k ∈ l, Anc s k a.oid ∧ ¬ s.evaluated k ∧ s.isParam k = false) ∧
+      (forward T s a).1.rndPos = s.rndPos + l.countP s.isRnd := by
+  obtain ⟨l, e⟩ := forward_evaluates T (reachable_wf hs) a
+  exact ⟨l, e.log, e.nodup, e.only, e.rndPos⟩
+example : (forward T0 s1 ⟨3, 0⟩).1.log = s1.log ++ [3] := rfl
+
+/-- The same for `backward a` (which forces `a` first and evaluates nothing afterwards). -/
+theorem backward_evaluates_only_ancestors {T : TOps τ} {s : State τ} (hs : Reachable T s) (a : Addr) :
+    ∃ l, (backward T s a).1.log = s.log ++ l ∧ l.Nodup ∧
+      (∀ k ∈ l, Anc s k a.oid ∧ ¬ s.evaluated k ∧ s.isParam k = false) ∧
+      (backward T s a).1.rndPos = s.rndPos + l.countP s.isRnd := by
+  obtain ⟨l, e⟩ := backward_evaluates T (reachable_wf hs) a
+  exact ⟨l, e.log, e.nodup, e.only, e.rndPos⟩
+example : (backward T0 s0 ⟨2, 0⟩).1.log = s0.log ++ [1, 2] := rfl
+
+/-- A successful `forward a` evaluates exactly the not-yet-evaluated non-parameter
+ancestors of `a`: the extension of the log has no repetition and contains `k` iff `k` is such
+an ancestor. -/
+theorem forward_evaluates_exactly {T : TOps τ} {s : State τ} (hs : Reachable T s) {a : Addr}
+    (ha : s.validAddr a = true) {v : τ} (hok : (forward T s a).2 = .ok v) :
+    ∃ l, (forward T s a).1.log = s.log ++ l ∧ l.Nodup ∧
+      ∀ k, k ∈ l ↔ (Anc s k a.oid ∧ ¬ s.evaluated k ∧ s.isParam k = false) := by
+  obtain ⟨l, e⟩ := forward_evaluates T (reachable_wf hs) a
+  refine ⟨l, e.log, e.nodup, fun k => ⟨e.only k, ?_⟩⟩
+  rintro ⟨h1, h2, h3⟩
+  exact forward_complete T (reachable_wf hs) ha hok e h1 h2 h3
+example : Reachable T0 s0 ∧ s0.validAddr ⟨3, 0⟩ = true ∧ (forward T0 s0 ⟨3, 0⟩).2 = .ok 22 ∧
+    (forward T0 s0 ⟨3, 0⟩).1.log = [1, 2, 3] := ⟨s0_reachable, rfl, rfl, rfl⟩
+
+/-- The exact evaluation order of a successful `forward a`: the log grows by `plan s … a` —
+nothing for a Parameter, an evaluated operator or one evaluated earlier in this request;
+otherwise first the arguments' plans, left to right, then the operator itself (depth-first
+post-order, every operator once). -/
+theorem forward_evaluates_in_order {T : TOps τ} {s : State τ} (hs : Reachable T s) {a : Addr} {v : τ}
+    (hok : (forward T s a).2 = .ok v) :
+    (forward T s a).1.log = s.log ++ plan s (a.oid + 1) [] a :=
+  forward_plan T (reachable_wf hs) hok
+example : plan s0 4 [] ⟨3, 0⟩ = [1, 2, 3] ∧ plan s1 4 [] ⟨3, 0⟩ = [3] ∧
+    (forward T0 s0 ⟨3, 0⟩).2 = .ok 22 := ⟨rfl, rfl, rfl⟩
+
+/-! ### 5. creation computes nothing -/
+
+/-- `add_operator` appends one operator without values and touches nothing else: the log,
+the random stream, the parameters, the fault schedule and all existing operators (hence all
+values) are unchanged. -/
+theorem creation_computes_nothing {s s' : State τ} {kind : Kind τ} {args : List Addr} {sizes : List Nat}
+    {id : Nat} (h : addOperator s kind args sizes = .ok (s', id)) :
+    s'.log = s.log ∧ s'.rndPos = s.rndPos ∧ s'.params = s.params ∧ s'.failIn = s.failIn ∧
+    id = s.ops.length ∧ (∀ k < id, s'.ops[k]? = s.ops[k]?) ∧
+    ∃ o, s'.ops = s.ops ++ [o] ∧ ∀ n ∈ o.rets, n.value = none ∧ n.grad = none := by
+  rw [addOperator_eq] at h
+  split at h
+  · simp only [Except.ok.injEq, Prod.mk.injEq] at h
+    obtain ⟨rfl, rfl⟩ := h
+    refine ⟨rfl, rfl, rfl, rfl, rfl, fun k hk => push_getElem?_lt hk, _, rfl, ?_⟩
+    simp [freshOp]
+  · cases h
+example : ∃ r, addOperator s1 (.op sumSem) [⟨2, 0⟩, ⟨3, 0⟩] [1] = .ok r := ⟨_, rfl⟩
+
+/-! ### 6. order of requests, operators added later -/
+
+/-- Forcing a set of nodes gives the same graph state whatever the order (and multiplicity) of
+the requests: all operators — hence all values — the parameters and the stream position are
+equal, and every node shows the same value.  For requests that succeed and evaluate no random
+operator (with random sources the *stream order* is part of the result: a sample is assigned
+when its node is evaluated; see `random_stream_position`). -/
+theorem order_independent {T : TOps τ} {s : State τ} (hs : Reachable T s) {as as' : List Addr}
+    (hmem : ∀ a, a ∈ as ↔ a ∈ as') (has : ∀ a ∈ as, s.validAddr a = true)
+    {vs vs' : List τ} (h1 : (forceAll T s as).2 = .ok vs) (h2 : (forceAll T s as').2 = .ok vs')
+    (hdet : (forceAll T s as).1.rndPos = s.rndPos) :
+    (forceAll T s as).1.ops = (forceAll T s as').1.ops ∧
+    (forceAll T s as).1.params = (forceAll T s as').1.params ∧
+    (forceAll T s as).1.rndPos = (forceAll T s as').1.rndPos ∧
+    ∀ a, (forceAll T s as).1.valueOf? a = (forceAll T s as').1.valueOf? a :=
+  forceAll_order_independent T (reachable_wf hs) hmem has h1 h2 hdet
+example : Reachable T0 s2 ∧ (forceAll T0 s2 [⟨3, 0⟩, ⟨4, 0⟩, ⟨2, 0⟩]).2 = .ok [22, 21, 11] ∧
+    (forceAll T0 s2 [⟨4, 0⟩, ⟨2, 0⟩, ⟨3, 0⟩, ⟨4, 0⟩]).2 = .ok [21, 11, 22, 21] ∧
+    (forceAll T0 s2 [⟨3, 0⟩, ⟨4, 0⟩, ⟨2, 0⟩]).1.rndPos = s2.rndPos ∧
+    (forceAll T0 s2 [⟨3, 0⟩, ⟨4, 0⟩, ⟨2, 0⟩]).1.log = [1, 2, 3, 4] ∧
+    (forceAll T0 s2 [⟨4, 0⟩, ⟨2, 0⟩, ⟨3, 0⟩, ⟨4, 0⟩]).1.log = [1, 2, 4, 3] :=
+  ⟨s2_reachable, rfl, rfl, rfl, rfl, rfl⟩
+
+/-- With no failure scheduled the success of one order implies the success of every other
+order (and of every sub-multiset of the requests), with the same resulting graph. -/
+theorem order_independent_total {T : TOps τ} {s : State τ} (hs : Reachable T s) (hf : s.failIn = none)
+    {as as' : List Addr} (hmem : ∀ a, a ∈ as ↔ a ∈ as') (has : ∀ a ∈ as, s.validAddr a = true)
+    {vs : List τ} (h1 : (forceAll T s as).2 = .ok vs) (hdet : (forceAll T s as).1.rndPos = s.rndPos) :
+    ∃ vs', (forceAll T s as').2 = .ok vs' ∧ (forceAll T s as).1.ops = (forceAll T s as').1.ops ∧
+      ∀ a, (forceAll T s as).1.valueOf? a = (forceAll T s as').1.valueOf? a := by
+  obtain ⟨vs', h2⟩ := forceAll_succeeds T (reachable_wf hs) hf (fun a ha => (hmem a).2 ha) has h1 hdet
+  have := forceAll_order_independent T (reachable_wf hs) hmem has h1 h2 hdet
+  exact ⟨vs', h2, this.1, this.2.2.2⟩
+example : Reachable T0 s2 ∧ s2.failIn = none ∧ (forceAll T0 s2 [⟨3, 0⟩, ⟨4, 0⟩]).2 = .ok [22, 21] ∧
+    (forceAll T0 s2 [⟨3, 0⟩, ⟨4, 0⟩]).1.rndPos = s2.rndPos := ⟨s2_reachable, rfl, rfl, rfl⟩
+
+/-- Operators added later are irrelevant: forcing an existing node after an `add_operator`
+does exactly what it does before it — same result, same evaluations, same values, same stream
+position — the new operator just sits at the end, unevaluated. -/
+theorem later_nodes_irrelevant {T : TOps τ} {s s' : State τ} (hs : Reachable T s) {kind : Kind τ}
+    {args : List Addr} {sizes : List Nat} {id : Nat} (h : addOperator s kind args sizes = .ok (s', id))
+    {a : Addr} (ha : s.validAddr a = true) :
+    (forward T s' a).2 = (forward T s a).2 ∧
+    (forward T s' a).1 = (forward T s a).1.push (freshOp kind args sizes) := by
+  rw [addOperator_eq] at h
+  split at h
+  · simp only [Except.ok.injEq, Prod.mk.injEq] at h
+    obtain ⟨rfl, rfl⟩ := h
+    rw [forward_push T (reachable_wf hs) _ ha]
+    exact ⟨rfl, rfl⟩
+  · cases h
+example : Reachable T0 s0 ∧ s0.validAddr ⟨2, 0⟩ = true ∧
+    ∃ r, addOperator s0 (.op sumSem) [⟨3, 0⟩] [1] = .ok r := ⟨s0_reachable, rfl, _, rfl⟩
+
+/-- The same for any number of operators added later: the request returns the same result and
+reaches the same state up to the appended (unevaluated) operators — same log, stream position,
+parameters, and all existing operators with the same values. -/
+theorem later_operators_irrelevant {T : TOps τ} {s : State τ} (hs : Reachable T s) (h : List (Op τ))
+    (hadd : ∀ op ∈ h, op.isAdd = true ∧ op.Admissible) {a : Addr} (ha : s.validAddr a = true) :
+    ∃ os, run T s h = { s with ops := s.ops ++ os } ∧
+      (forward T (run T s h) a).2 = (forward T s a).2 ∧
+      (forward T (run T s h) a).1 = { (forward T s a).1 with ops := (forward T s a).1.ops ++ os } := by
+  obtain ⟨os, h1, h2⟩ := forward_run_adds T (reachable_wf hs) h hadd ha
+  refine ⟨os, by rw [h1, pushAll_eq], by rw [h2], by rw [h2, pushAll_eq]⟩
+example : (forward T0 (run T0 s0 [.addOperator .rnd [] [1], .addOperator (.op sumSem) [⟨4, 0⟩, ⟨2, 0⟩] [1]]) ⟨2, 0⟩).2
+    = (forward T0 s0 ⟨2, 0⟩).2 := rfl
+
+/-! ### 7. random nodes -/
+
+/-- The stream position equals the number of random operators evaluated so far: unevaluated
+random nodes do not consume the stream. -/
+theorem random_stream_position {T : TOps τ} {s : State τ} (hs : Reachable T s) :
+    s.rndPos = s.log.countP s.isRnd :=
+  (reachable_wf hs).rnd_count
+example : s0.rndPos = 0 ∧ s1.rndPos = 1 ∧ (run T0 s1 [.addOperator .rnd [] [1], .forward ⟨3, 0⟩]).rndPos = 1 :=
+  ⟨rfl, rfl, rfl⟩
+
+/-- The stream is consumed by the evaluated random operators, in evaluation order, without
+gaps: the i-th random operator of the log holds sample number i (of the size of its node). -/
+theorem random_samples_in_order {T : TOps τ} {s : State τ} (hs : Reachable T s) {i k : Nat}
+    (h : (s.log.filter s.isRnd)[i]? = some k) :
+    ∃ n, s.node? ⟨k, 0⟩ = some n ∧ n.value = some (s.sample i n.size) := by
+  obtain ⟨o, n, h1, h2, h3⟩ := (reachable_wf hs).rnd_vals i k h
+  exact ⟨n, by simp [State.node?, h1, h2], h3⟩
+example : (s1.log.filter s1.isRnd)[0]? = some 1 ∧ (s1.node? ⟨1, 0⟩).bind (·.value) = some (smp 0 1) :=
+  ⟨rfl, rfl⟩
+
+/-- A random node exposes one single sample: once drawn, every later consumer — a repeated
+request, the forward of any operator that has it as an argument (which reads `forward` of
+the argument), and the backward rules (which read `valueOf?`) — sees that same value, after
+any further history. -/
+theorem random_single_sample {T : TOps τ} {s : State τ} (hs : Reachable T s) {a : Addr} {n : NodeInfo τ} {v : τ}
+    (hn : s.node? a = some n) (hv : n.value = some v) (h' : List (Op τ)) (hadm : ∀ op ∈ h', op.Admissible) :
+    forward T (run T s h') a = (run T s h', .ok v) ∧ (run T s h').valueOf? a = some v := by
+  have w' := reachable_wf (reachable_run hs hadm)
+  obtain ⟨n', hn', hv'⟩ := values_monotone hs hn hv h' hadm
+  exact ⟨forward_memo T w' hn' hv', valueOf?_of_node w' hn' hv'⟩
+example : (s1.node? ⟨1, 0⟩).bind (·.value) = some 1 ∧ s1.isRnd 1 = true := ⟨rfl, rfl⟩
 
 end Primitiv.C05
